@@ -12,6 +12,7 @@
   Termination on unbounded sources under fair rounds: `C10_terminates_fair` (Lemmas/RunFair.lean).
 -/
 import OrxPar.Lemmas.Run
+import OrxPar.Lemmas.RunFair
 import OrxPar.Lemmas.Logged
 namespace OrxPar
 
@@ -37,6 +38,27 @@ theorem C10_progress (s : Run.State) (l : Nat) (hl : s.len = some l) (t : Nat) (
     (hw : s.ws[t]? = some w) (hnd : w.status ≠ .done) (hc : 0 < w.c) :
     Run.measure (Run.step s t) l < Run.measure s l :=
   Run.step_measure s l hl t w hw hnd hc
+
+/-- **C10 (termination on unbounded sources).** if the source — of known, unknown or unbounded
+    length — has a match at position `m`, then under every schedule consisting of fair rounds
+    (every worker steps at least once per round; arbitrary order and repetitions inside a round;
+    other matches may be found by anybody at any time) all workers are done after
+    `2(m+1) + Σc + 2·#workers + 4` rounds: a bound that does not depend on how much input remains -/
+theorem C10_terminates_fair (src : Nat → Val) (len : Option Nat) (hit : Val → Bool) (cs : List Nat)
+    (hne : cs ≠ []) (hpos : ∀ c ∈ cs, 0 < c) (m : Nat) (hm : hit (src m) = true)
+    (hin : ∀ l, len = some l → m < l)
+    (rounds : List (List Nat)) (hfair : ∀ r ∈ rounds, Run.FairRound cs.length r)
+    (hlen : Run.termBound m cs ≤ rounds.length) :
+    Run.AllDone (Run.run (Run.init src len hit cs) rounds.flatten) :=
+  Run.terminates_fair src len hit cs hne hpos m hm hin rounds hfair hlen
+
+/-- finite sources without any match: fair rounds finish within a bound linear in the length -/
+theorem C10_terminates_fair_finite (src : Nat → Val) (l : Nat) (hit : Val → Bool) (cs : List Nat)
+    (hne : cs ≠ []) (hpos : ∀ c ∈ cs, 0 < c)
+    (rounds : List (List Nat)) (hfair : ∀ r ∈ rounds, Run.FairRound cs.length r)
+    (hlen : 2 * l + cs.sum + 2 * cs.length + 4 ≤ rounds.length) :
+    Run.AllDone (Run.run (Run.init src (some l) hit cs) rounds.flatten) :=
+  Run.terminates_fair_finite src l hit cs hne hpos rounds hfair hlen
 
 /-- **C10 (sequential clause).** -/
 theorem C10_seq (s : Src) (ops : List Op) (q : Val → Bool)
